@@ -6,11 +6,12 @@ from .. import core
 from ..core import Script, Rng
 from ..stage import LineStage, replay_line
 from . import ref_gen
+from .common import mode_tok
 
 ARTEFACTS = ["G1-consts", "G2-ref-compress", "G5-vectors", "G7-ref"]
 EXTRA_PROPS = [("B3.Props.C15T", "B3/Props/C15T.lean")]   # theorems about the code translated from the sources
 RULE = ("(1) the real reference_impl crate driven through R ops: all three modes, update splits from the size classes {0,1,63,64,65,1023,"
-        "1024,1025,k*1024,k*1024+-1,2^j*1024,random <= 200 KiB}, output lengths 0..300 and up to 5000, compared with the model of "
+        "1024,1025,k*1024,k*1024+-1,2^j*1024,random <= 200 KiB}, output lengths 0..300 and up to 5000, deep trees (128..1536 chunks and +1 byte: chunk counts with up to 10 trailing zero bits, in one update and in 64 KiB updates), compared with the model of "
         "reference_impl.rs (run with the compression function generated from it) and the spec; (2) every field of every case of "
         "test_vectors/test_vectors.json (35 lengths x 3 modes x 131 bytes, the key, the context string, the input pattern) compared with "
         "the compiled specification's output, with the frozen copy in /verif/pins, and with the real crate, the C library and the "
@@ -76,6 +77,18 @@ def stages(tier, seed, witness_search=False):
     if witness_search:
         n *= 3
     scripts = ref_gen.scripts_for_ref(rng, n)
+    # deep trees: chunk counts with long runs of trailing zero bits (the stack merge count is the number of trailing zeros of the
+    # chunk counter: 2^k and 2^k + 1 chunks, multiples of 256 and 512), one update and chunk-sized updates
+    kinds = ["hash", "keyed", "derive"]
+    for j, chunks in enumerate([128, 255, 256, 257, 511, 512, 513, 768, 1024, 1025, 1536] + ([2048, 2049, 4096, 4097] if tier != "quick" else [])):
+        for extra in (0, 1):
+            L = chunks * 1024 + extra
+            sd = rng.randrange(1 << 32)
+            mode = mode_tok(rng, kinds[(j + extra) % 3])
+            ops = [f"R new a {mode}", f"R upd a pat {L} {sd}", "R fin a 32", "R fin a 131"]
+            if chunks <= 520:
+                ops += [f"R new b {mode}"] + [f"R upd b pats {min(65536, L - o)} {sd} {o}" for o in range(0, L, 65536)] + ["R fin b 32"]
+            scripts.append(Script(ops, tags=("deep-tree", f"{chunks}ch")))
     return [LineStage("reference", scripts), VectorStage()]
 
 
